@@ -575,8 +575,7 @@ func runDataCases(r *core.Run, projects map[string]*dataProject, cases []dataCas
 	r.Logf("data loaders: %d bundles, %d imports checked", len(runs), checked)
 }
 
-func dataProjects(r *core.Run, loaders []string) map[string]*dataProject {
-	all := enumerateContents(r)
+func dataProjects(r *core.Run, loaders []string, all []*content) map[string]*dataProject {
 	if all == nil {
 		return nil
 	}
@@ -595,9 +594,9 @@ func dataProjects(r *core.Run, loaders []string) map[string]*dataProject {
 	return projects
 }
 
-func runDataLoaders(r *core.Run) {
+func runDataLoaders(r *core.Run, all []*content) {
 	loaders := []string{"text", "json", "dataurl", "base64", "binary", "file"}
-	projects := dataProjects(r, loaders)
+	projects := dataProjects(r, loaders, all)
 	if projects == nil {
 		return
 	}
@@ -647,7 +646,7 @@ func runDataLoaders(r *core.Run) {
 }
 
 func runDataCase(r *core.Run, d dataCase) {
-	projects := dataProjects(r, []string{d.Loader})
+	projects := dataProjects(r, []string{d.Loader}, enumerateContents(r))
 	if projects == nil {
 		return
 	}
